@@ -290,7 +290,7 @@ def eval_int_test(node, var, val):
     return None
 
 
-def r2_pairing(ctx, rule, quals=None, entries=(ENTRY,)):
+def r2_pairing(ctx, rule, quals=None, entries=(ENTRY,), floor=12):
     emitters, closure = emitter_quals(ctx, entries)
     quals = quals or [PG + '_recursive_guesses', PG + '_honeyword_recursive_guess', PG + 'omen_generate_guesses',
                       CS + 'run', HS + 'run']
@@ -307,7 +307,7 @@ def r2_pairing(ctx, rule, quals=None, entries=(ENTRY,)):
             # tail position: `return self.emitter(..., limit)` needs no accounting
             n += 1
             check_pairing(ctx, rule, qual, fn, var, st, block, i, amount)
-    ctx.floor(rule, PGF, n, 12, 'emission events in limit-aware emitters')
+    ctx.floor(rule, PGF, n, floor, 'emission events in limit-aware emitters')
 
 
 def r3_threading(ctx, rule, entries=(ENTRY,), floor=8):
